@@ -9,6 +9,20 @@ thread_local! {
     pub static CLONE_SERIAL: RefCell<u64> = RefCell::new(1 << 40);
 }
 
+thread_local! {
+    /// (type index, serial) of every clone made since the log was last drained
+    pub static CLONES: RefCell<Vec<(u64, u64)>> = RefCell::new(Vec::new());
+}
+
+pub fn drain_clones() -> Vec<(u64, u64)> {
+    CLONES.with(|d| std::mem::take(&mut *d.borrow_mut()))
+}
+
+pub fn reset_clone_serial() {
+    CLONE_SERIAL.with(|c| *c.borrow_mut() = 1 << 40);
+    drain_clones();
+}
+
 pub fn drain_drops() -> Vec<(u64, u64)> {
     DROPS.with(|d| std::mem::take(&mut *d.borrow_mut()))
 }
@@ -51,7 +65,9 @@ macro_rules! comp_drop {
         impl Clone for $name {
             fn clone(&self) -> Self {
                 // a clone is a new value with its own identity
-                <$name as Comp>::new(next_clone_serial())
+                let v = next_clone_serial();
+                let _ = CLONES.try_with(|c| c.borrow_mut().push((<$name as Comp>::T, v)));
+                <$name as Comp>::new(v)
             }
         }
     };
